@@ -215,6 +215,13 @@ class Sim:
                         X['oo'] = X['oo'] + [all_outs(P)[0], S]
                         self.macro_ctx = dict(X=key(X), S=S, psrc=psrc)
                         self.labels.add('order_only_source_and_generated_added')
+        elif k == 'add_ovf':
+            srcs_ = [s_ for s_ in srcs if s_ in self.files and not s_.startswith('ddsrc')]
+            if srcs_ and not any(key(e) == 'ovf0' for e in g['edges']):
+                for i in range(op['n']):
+                    g['edges'].append(dict(outs=['ovf%d' % i], iouts=[], phony=False, exp=[srcs_[(op['a'] + i) % len(srcs_)]], imp=[], oo=[], vals=[],
+                                           restat=False, generator=False, deps='', hidden=[], variant='v0', pool='', rsp=None, dd=None, depfile_layout=0))
+                self.labels.add('manifest_statement_added')
         elif k == 'ctx_del_src':
             if getattr(self, 'macro_ctx', None):
                 self.delete(self.macro_ctx['S'])
@@ -305,6 +312,16 @@ class Sim:
                 if cand:
                     self.touch(cand[0])
                     self.labels.add('restat_noop_directed')
+        elif k == 'dd_restat_noop':
+            es = [e for e in cmds if e.get('dd') and e.get('dd_restat') and g.get('dd_files', {}).get(e['dd'], {}).get('produced')]
+            if es:
+                e = es[op['a'] % len(es)]
+                pe = producer_map(g).get(e['dd'])
+                cand = [i for i in e['exp'] + e['imp'] if i in srcs and i in self.files]
+                if pe is not None and cand and pe['exp'] and pe['exp'][0] in self.files:
+                    self.touch(pe['exp'][0])       # the dyndep file is produced again (it is loaded in the middle of the build) ...
+                    self.touch(cand[0])            # ... and the bound statement runs without changing its output
+                    self.labels.add('dyndep_restat_noop_with_file_rebuilt')
         elif k == 'edit_recent_hidden':
             if getattr(self, 'recent_hidden', None):
                 s = self.recent_hidden[0]
@@ -927,12 +944,7 @@ class Sim:
                 # budget is used up while one of them is still running, and something else is still waiting for a slot
                 # (the manifest gains kk+2 independent statements that read one source each, all of which fail)
                 kk = 1 + op['c'] % 2
-                srcs_ = [s_ for s_ in self.g['srcs'] if s_ in self.files and not s_.startswith('ddsrc')]
-                if srcs_ and not any(key(e) == 'ovf0' for e in self.g['edges']):
-                    for i in range(kk + 2):
-                        self.g['edges'].append(dict(outs=['ovf%d' % i], iouts=[], phony=False, exp=[srcs_[(op['a'] + i) % len(srcs_)]], imp=[], oo=[], vals=[],
-                                                    restat=False, generator=False, deps='', hidden=[], variant='v0', pool='', rsp=None, dd=None, depfile_layout=0))
-                    self.labels.add('manifest_statement_added')
+                yield dict(op='add_ovf', n=kk + 2, a=op['a'])      # a change op of its own, so that every runner sees the new manifest
                 n_ = len(self.cmd_edges())
                 yield dict(op='build', sel=2, j=kk + 1, k=kk, sched=op['sched'],
                            faults=[(n_ - 1 - i, 1 + i, False) for i in range(kk + 2)])
